@@ -2,6 +2,11 @@
 import json
 import random
 
+import os
+import re
+import subprocess
+from concurrent.futures import ThreadPoolExecutor
+
 from .. import common as C
 from .. import codec as K
 
@@ -10,6 +15,137 @@ PROP = "C08"
 
 def run(tier, seed):
     return run_prop(PROP, tier, seed)
+
+
+# tms1000/tms1100 print "%03x|%d %x/%02x:" (address, position, page/lfsr)
+ADDRCOL = {"tms1000": (re.compile(r"^([0-9a-f]{3,})\|"), 16), "tms1100": (re.compile(r"^([0-9a-f]{3,})\|"), 16), "agc": (re.compile(r"^0([0-7]{4,}):"), 8), "pdp8": (re.compile(r"^0([0-7]{4,}):"), 8),
+           "pdp11": (re.compile(r"^0([0-9a-f]{4,}):"), 16)}
+ADDRDEF = (re.compile(r"^0x([0-9a-f]+):"), 16)
+
+
+def address_column(cpu, out):
+    """pure lexer: the address column of `naken_util -disasm` output, in output order"""
+    rx, radix = ADDRCOL.get(cpu, ADDRDEF)
+    glued = re.compile(r"(?<=[0-9:?\s-])(?=0x[0-9a-f]{4,8}: {1,4}[0-9a-f]{2})")
+    lines = []
+    started = False
+    for raw in out.split("\n"):
+        if raw.startswith("Addr") or raw.startswith("----") or raw.startswith("Type help"):
+            started = True
+            continue
+        if not started:
+            continue
+        for part in (glued.split(raw) if radix == 16 else [raw]):
+            m = rx.match(part)
+            if m:
+                lines.append(int(m.group(1), radix))
+    return lines
+
+
+def walk_one(a):
+    exe, cpu, path, args = a
+    try:
+        p = subprocess.run([exe, "-" + cpu, "-bin"] + args + [path], stdout=subprocess.PIPE, stderr=subprocess.STDOUT, timeout=20)
+        return p.returncode, p.stdout.decode(errors="replace")
+    except subprocess.TimeoutExpired:
+        return -9, "timeout"
+
+
+def range_part(chk, tier, seed, rnd):
+    """second sentence of C08: naken_util's range disassembly tiles the range (Tiling.tla)"""
+    vdir = C.ensure_build("rel")
+    rd = chk.rundir
+    for unit in (1, 2):
+        cfg = C.tlc_cfg_with("mc_Tiling.cfg", rd, {"Unit": unit, "N": 4 if unit == 1 else 7})
+        r = C.tlc("MCTiling", cfg, os.path.join(rd, "mct%d" % unit), workers=8, heap="6g")
+        chk.add_tlc(r)
+        if not r.ok:
+            chk.report("model:Tiling:%s" % r.violated, "the range loop violates %s" % r.violated, dict(out=r.out[-2000:]))
+    cpus = K.cpu_list(vdir)
+    wd = os.path.join(rd, "walk")
+    os.makedirs(wd)
+    jobs, meta = [], {}
+    nfiles = 4 if tier == "quick" else 24
+    for c in cpus:
+        cpu, bpa = c["name"], c["bpa"]
+        if cpu in ("ps2_ee_vu0", "ps2_ee_vu1"):
+            continue        # the range walk prints upper/lower pairs (8 bytes), the single decoder one half of a pair
+        unit = max(bpa, 1)
+        for k in range(nfiles):
+            pat = (k * 7919 + seed * 104729 + c["type"] * 31) % 65536
+            n = 24 + 4 * (k % 5)
+            if k % 4 == 0:
+                data = bytes([0] * n)
+            elif k % 4 == 1:
+                data = bytes([0xff] * n)
+            else:
+                data = bytes.fromhex("%04x" % pat + K.fill_for(pat | 1, c["type"]))[:16] * 3
+                data = data[:n]
+            n -= n % unit
+            data = data[:n]
+            start = [0, 0x100, 0xfff0][k % 3] * 1
+            start -= start % unit
+            path = os.path.join(wd, "%s_%d.bin" % (cpu, k))
+            open(path, "wb").write(data)
+            # whole image, or a sub-range that ends inside the image (possibly inside an instruction)
+            if k % 2 == 0:
+                args = ["-address", "0x%x" % start, "-disasm"]
+                low, high = start, start + n - 1
+            else:
+                lo_u = start // unit + 1
+                hi_u = start // unit + (n // unit) - 2
+                args = ["-address", "0x%x" % start, "-disasm_range", "0x%x-0x%x" % (lo_u, hi_u)]
+                low, high = lo_u * unit, hi_u * unit + unit - 1
+            cid = "%s.%d" % (cpu, k)
+            meta[cid] = (cpu, unit, start, data, low, high, args)
+            jobs.append((os.path.join(vdir, "naken_util"), cpu, path, args))
+    with ThreadPoolExecutor(C.NCPU) as ex:
+        outs = list(ex.map(walk_one, jobs))
+    # decoder lengths at every unit of every file
+    dcases = []
+    for cid, (cpu, unit, start, data, low, high, args) in meta.items():
+        padded = data + bytes(16)
+        lines = ["%d %s" % (start + o, padded[o:o + 16].hex()) for o in range(0, len(data), unit)]
+        dcases.append((cid, "kind=dec cpu=%s" % cpu, "\n".join(lines)))
+    dec = {o["case"]: o for o in C.conform_parallel(vdir, "codec", dcases, rd, "walkdec", 10, nproc=C.NCPU)}
+    events = []
+    for (cid, m), (rc, out) in zip(meta.items(), outs):
+        cpu, unit, start, data, low, high, args = m
+        if rc != 0:
+            chk.report("C08:%s:range:naken_util %s" % (cpu, "timed out" if rc == -9 else "exit %d" % rc),
+                       "naken_util -%s %s on %s" % (cpu, " ".join(args), data.hex()), dict(cpu=cpu, args=args, data=data.hex(), out=out[-500:]))
+            continue
+        d = dec.get(cid, {})
+        if "res" not in d:
+            continue            # no single-instruction decoder for this CPU
+        dl = [dict(a=start + i * unit, n=r[0]) for i, r in enumerate(d["res"])]
+        events.append(dict(id=cid, unit=unit, low=low, high=high, lines=address_column(cpu, out), dl=dl))
+    canaries = set()
+    good = [e for e in events if len(e["lines"]) >= 3]
+    for e in rnd.sample(good, min(10, len(good))):
+        c = json.loads(json.dumps(e))
+        c["id"] = "canary." + e["id"]
+        del c["lines"][1]
+        canaries.add(c["id"])
+        events.append(c)
+    verdicts, runs = C.tlc_accept("TraceTiling", "trace_Tiling.cfg", events, rd, "walk", heap="3g")
+    for r in runs:
+        chk.add_tlc(r)
+    bad = {v["id"]: v["why"] for v in verdicts}
+    outmap = {cid: o for (cid, m), (rc, o) in zip(meta.items(), outs)}
+    for vid, why in sorted(bad.items()):
+        if vid in canaries:
+            continue
+        cpu, unit, start, data, low, high, args = meta[vid]
+        kind = "whole image" if "-disasm" in args else "sub-range"
+        chk.report("C08:%s:range:%s:%s" % (cpu, why, kind),
+                   "%s: naken_util -%s -bin %s on %s" % (why, cpu, " ".join(args), data.hex()),
+                   dict(cpu=cpu, args=args, data=data.hex(), why=why, low=low, high=high, out=outmap[vid][-1500:]))
+    # a canary may be accepted only if the original was rejected for an earlier reason
+    missed = [c for c in canaries if c not in bad]
+    if missed:
+        raise C.InfraError("range canaries accepted: %s" % missed[:3])
+    return len(events) - len(canaries)
 
 
 def run_prop(prop, tier, seed):
@@ -30,9 +166,10 @@ def run_prop(prop, tier, seed):
         total_cases += n
         total_events += ne
         ncan += nc
+    nrange = range_part(chk, tier, seed, rnd) if prop == "C08" else 0
     weak = sorted(k for k, s in stats.items() if s["decoded"] and s["accepted"] * 20 < s["decoded"])
     chk.cov.update(dict(
-        evaluations=total_cases,
+        evaluations=total_cases + nrange, range_walks=nrange,
         distinct_nontrivial=len(distinct),
         rule="for every CPU of cpu_list[]: leading 16-bit patterns (quick: 3000 seeded + boundary ones; thorough: all 65,536) "
              "followed by 14 fill bytes (zeros, ones, 55aa, seeded random), at address 0 or 0x1000; non-trivial = decodes "
